@@ -70,6 +70,10 @@ func wcChild(a []string) string {
 	// whatever window the library leaves open around it
 	copts := ws.ConnectionOptions{CloseDeadline: 150 * time.Millisecond, Logger: yieldLogger{}}
 	var handled int32
+	if scen == "errwriters" {
+		// a ReadHandler that reports read errors to the caller of Listen but leaves the connection open
+		copts.ReadHandler = func(c ws.Connection, _ int, _ []byte, err error) error { return err }
+	}
 	if scen == "handler" {
 		// a ReadHandler of the caller's: fails on the first data message, accepts the others, closes on a read error
 		copts.ReadHandler = func(c ws.Connection, _ int, _ []byte, err error) error {
@@ -193,6 +197,34 @@ func wcChild(a []string) string {
 		}
 		sort.Strings(ls)
 		extraListen = strings.Join(ls, "+")
+	case "errwriters":
+		// the reader ends with a transport error (peer = sever) or keeps running; the connection stays open and
+		// n goroutines write data frames at once; then one Close
+		if !listen {
+			startListen()
+			time.Sleep(5 * time.Millisecond)
+			listen = true
+		}
+		if peer == "sever" {
+			select {
+			case lr0 := <-listenRes:
+				listenRes <- lr0
+			case <-time.After(time.Second):
+			}
+		}
+		for i := 0; i < n; i++ {
+			wg.Add(1)
+			go func(i int) {
+				defer wg.Done()
+				for j := 0; j < 30; j++ {
+					_, _ = conn.Write([]byte{byte(i), byte(j)})
+				}
+			}(i)
+		}
+		wg.Wait()
+		t0 := time.Now()
+		results = append(results, classifyErr(conn.Close()))
+		maxms = time.Since(t0).Milliseconds()
 	case "handler":
 		// the peer sends n data messages, the caller's handler fails on the first; then one Close
 		if !listen {
@@ -320,9 +352,11 @@ func init() {
 	suites["wsconn"] = func(o *Out, r *Rng, n int, tier string) {
 		peers := []string{"echo", "silent", "first1000", "first1001", "sever", "writefail"}
 		for i := 0; i < n; i++ {
-			switch r.Intn(7) {
+			switch r.Intn(8) {
 			case 5:
 				o.emit("C16", "WC", "listeners", itoa(int64(2+r.Intn(7))), "f", peers[r.Intn(2)], itoa(int64(i)))
+			case 4:
+				o.emit("C16", "WC", "errwriters", itoa(int64(2+r.Intn(6))), "t", []string{"sever", "sever", "echo", "silent"}[r.Intn(4)], itoa(int64(i)))
 			case 6:
 				o.emit("C15", "WC", "handler", itoa(int64(r.Intn(5))), "t", peers[r.Intn(2)], itoa(int64(i)))
 			case 0:
